@@ -844,6 +844,37 @@ theorem loop_full (endErr : Bool) (rest : Bytes) (bs : List Block) :
       refine ⟨st', ?_, by simpa using hinv'⟩
       rw [encodeAll_cons, List.append_assoc, he, he']
 
+/-- the whole block list and then the end of the delivered bytes (a cut at a block boundary):
+    every block is consumed and the loop stops on the missing next block -/
+theorem loop_boundary (endErr : Bool) (bs : List Block) :
+    ∀ (cs : List Block) (p : PSt) (st : RepairSt) (pf : PSt) (fuel : Nat),
+      RInv P H utf8 cs p st → p.WF → (∀ b ∈ bs, b.WF P utf8) → protoRun H p bs = some pf →
+      bs.length < fuel →
+      ∃ st', Repair.loop P H utf8 endErr fuel (encodeAll bs) st =
+          (st', if endErr then .errNextBlock .io else .eofNextBlock) ∧
+        RInv P H utf8 (cs ++ bs) pf st' := by
+  induction bs with
+  | nil =>
+    intro cs p st pf fuel hinv _ _ hrun hf
+    obtain ⟨f, rfl⟩ : ∃ f, fuel = f + 1 := ⟨fuel - 1, by simp at hf; omega⟩
+    simp only [protoRun, Option.some.injEq] at hrun
+    subst hrun
+    have hnil : Hdr.decode P utf8 [] = .error .eof := rfl
+    exact ⟨st, by simp only [encodeAll_nil, Repair.loop, hnil], by simpa using hinv⟩
+  | cons b bs ih =>
+    intro cs p st pf fuel hinv hw hwf hrun hf
+    obtain ⟨f, rfl⟩ : ∃ f, fuel = f + 1 := ⟨fuel - 1, by simp at hf; omega⟩
+    simp only [protoRun] at hrun
+    cases hs : protoStep H p b with
+    | none => simp [hs] at hrun
+    | some p' =>
+      simp only [hs] at hrun
+      obtain ⟨st1, he, hinv1⟩ := loop_step hinv hw b (hwf b (by simp)) hs (encodeAll bs) f endErr
+      obtain ⟨st', he', hinv'⟩ := ih (cs ++ [b]) p' st1 pf f hinv1 (protoStep_wf hw hs)
+        (fun c hc => hwf c (by simp [hc])) hrun (by simp at hf; omega)
+      refine ⟨st', ?_, by simpa using hinv'⟩
+      rw [encodeAll_cons, he, he']
+
 /-- a cut of `k` bytes: the loop sees `cutBlocks bs k` and then stops (never with `eoad`) -/
 theorem loop_cut (endErr : Bool) (bs : List Block) :
     ∀ (cs : List Block) (p : PSt) (st : RepairSt) (pf : PSt) (k fuel : Nat),
